@@ -289,6 +289,9 @@ def do_op(actor, op, instances):
         elif kind == "resolve":
             url, resolved = r.resolve(op["ref"])
             out = {"k": "value", "v": [url, typed(resolved)]}
+        elif kind == "resolve_from_url":
+            resolved = r.resolve_from_url(op["ref"])
+            out = {"k": "value", "v": typed(resolved)}
         elif kind == "resolving":
             with r.resolving(op["ref"]) as resolved:
                 inner = r.resolution_scope
